@@ -393,38 +393,60 @@ def p3_delete_frees(prog):
     # (b) Archetype::clear frees each identifier, before length = 0
     for f in prog.fns.values():
         if f.path == 'archetype::Archetype::<R>::clear':
-            E = pathsem.analyse(prog, f)
             ei = adt_field_index(prog, 'archetype::Archetype', 'entity_identifiers')
 
             def S(t):
                 return pathsem.canon(pathsem.strip_refs(t))
-            n_el = n_free = 0
-            bad = None
-            for p in E.paths:
-                if p.ended not in ('return', 'cutoff'):
-                    continue
-                els = []
-                for a_, v in p.conds:
-                    if isinstance(a_, tuple) and ((a_[0] == 'next' and v == 1) or (a_[0] == 'nonempty' and v is True)):
-                        root = pathsem.iter_chain(a_[1])[0]
-                        if pathsem.mentions(root, lambda t: pathsem.is_field_of(t, 'archetype::Archetype', ei)):
-                            els.append(pathsem.canon(('elem', a_[1]) + tuple(a_[2:3] if a_[0] == 'next' else ())))
-                frees = p.calls(lambda e: e['name'] == 'free_unchecked')
-                n_el += len(els)
-                n_free += len(frees)
-                for el in els:
-                    if not any(S(e['args'][1]) in (el, ('d', el)) or S(e['vals'][1]) in (el, ('d', el)) for e in frees) and p.ended == 'return':
-                        bad = bad or 'an identifier of the column is dropped without being freed'
-                for e in frees:
-                    if not any(S(e['args'][1]) in (el, ('d', el)) or S(e['vals'][1]) in (el, ('d', el)) for el in els):
-                        bad = bad or 'free_unchecked is applied to something that is not an element of the identifier column'
+
+            def frees_in(root, inl=None):
+                """-> (truncated, n_el, n_free, bad) over the paths of `root` (with Archetype::clear walked inline when
+                the freeing was handed to the caller)"""
+                E = pathsem.analyse(prog, root, inline=inl) if inl else pathsem.analyse(prog, root)
+                n_el = n_free = 0
+                bad = None
+                for p in E.paths:
+                    if p.ended not in ('return', 'cutoff'):
+                        continue
+                    els = []
+                    for a_, v in p.conds:
+                        if isinstance(a_, tuple) and ((a_[0] == 'next' and v == 1) or (a_[0] == 'nonempty' and v is True)):
+                            root_ = pathsem.iter_chain(a_[1])[0]
+                            if pathsem.mentions(root_, lambda t: pathsem.is_field_of(t, 'archetype::Archetype', ei)):
+                                els.append(pathsem.canon(('elem', a_[1]) + tuple(a_[2:3] if a_[0] == 'next' else ())))
+                    frees = p.calls(lambda e: e['name'] == 'free_unchecked')
+                    n_el += len(els)
+                    n_free += len(frees)
+                    for el in els:
+                        if not any(S(e['args'][1]) in (el, ('d', el)) or S(e['vals'][1]) in (el, ('d', el)) for e in frees) and p.ended == 'return':
+                            bad = bad or 'an identifier of the column is dropped without being freed'
+                    for e in frees:
+                        if not any(S(e['args'][1]) in (el, ('d', el)) or S(e['vals'][1]) in (el, ('d', el)) for el in els):
+                            bad = bad or 'free_unchecked is applied to something that is not an element of the identifier column'
+                return E.truncated, n_el, n_free, bad
+            trunc, n_el, n_free, bad = frees_in(f)
+            where = f
+            if not trunc and not n_free and not n_el:
+                # the body frees nothing itself: the freeing may have been handed to the callers (a closure run by this
+                # body, or a column it hands back) - then every caller has to do it, seen with this body walked inline
+                callers = [g for g in prog.fns.values() if g.dp != f.dp and g.kind != 'Closure' and g.body is not None and g.body.calls(lambda c: (c.get('res') or c).get('dp') == f.dp)]
+                if callers:
+                    tot = [0, 0]
+                    for g in callers:
+                        t_, e_, fr_, b_ = frees_in(g, lambda c: c.dp == f.dp)
+                        tot[0] += e_
+                        tot[1] += fr_
+                        if t_ or not fr_ or not e_ or b_:
+                            trunc, n_el, n_free, bad, where = t_, e_, fr_, b_, g
+                            break
+                    else:
+                        trunc, n_el, n_free, bad = False, tot[0], tot[1], None
             r.inst('%s: %d free in loop' % (f.path, n_free))
-            if E.truncated or not n_free:
-                r.viol('P3', f.path + '/no-free', f.loc(), 'Archetype::clear does not free the identifiers it drops')
+            if trunc or not n_free:
+                r.viol('P3', f.path + '/no-free', where.loc(), 'Archetype::clear does not free the identifiers it drops')
             elif not n_el:
-                r.viol('P3', f.path + '/loop-source', f.loc(), 'the freeing loop does not iterate the identifier column')
+                r.viol('P3', f.path + '/loop-source', where.loc(), 'the freeing loop does not iterate the identifier column')
             elif bad:
-                r.viol('P3', f.path + '/free-not-in-loop', f.loc(), bad)
+                r.viol('P3', f.path + '/free-not-in-loop', where.loc(), bad)
         if f.path in ('archetype::Archetype::<R>::clear_detached', 'archetype::Archetype::<R>::pop_row_unchecked'):
             r.inst('%s: must not free' % f.path)
             # on feasible paths only: a shared helper taking `Option<&mut Allocator>` frees under `Some`, which the
